@@ -1,16 +1,16 @@
 SPECIFICATION Spec
 CONSTANTS
-  NChunks = 2
-  Sizes = {2, 17}
-  ZeroSet = {0, 1}
-  ExtSet = {"none", "x"}
-  TrailerSet = {0, 2}
-  OutSet = {0, 1, 3, 64}
+  NChunks = 3
+  Sizes = {1, 2}
+  ZeroSet = {0}
+  ExtSet = {"none"}
+  TrailerSet = {0, 1}
+  OutSet = {0, 1, 2, 64}
   Hostile = FALSE
   Alphabet = {}
   MaxLen = 0
   DumpEdges = FALSE
-  ToggleStop = FALSE
+  ToggleStop = TRUE
 VIEW view
 ACTION_CONSTRAINT Edge
 INVARIANTS Refines NoPanic NoErrOnValid NoOverRead AllPayload EndedIff
